@@ -29,6 +29,7 @@
 #include <stdlib.h>
 #include <string.h>
 
+#include "compiler.h"
 #include "compression.h"
 #include "log.h"
 #include "zlib.h"
@@ -131,18 +132,23 @@ static enum websocket_callback_return private_decompress(struct websocket *s, ui
 		log_err("inflate in error: malloc");
 		return WS_ERROR;
 	}
-	memcpy(in, msg, length);
+	if (length > 0) {
+		memcpy(in, msg, length);
+	}
 	in[length] = 0x00;
 	in[length + 1] = 0x00;
 	in[length + 2] = 0xFF;
 	in[length + 3] = 0xFF;
 	strm->next_in = in;
 
-	size_t size_out = 20 * length;
+	size_t size_out = 20 * length + 16;
 	strm->avail_out = size_out;
 	*free_ptr = malloc(size_out);
 	if (*free_ptr == NULL) {
 		log_err("inflate out error: malloc");
+		free(in);
+		strm->avail_in = 0;
+		strm->next_in = Z_NULL;
 		return WS_ERROR;
 	}
 	uint8_t *out = *free_ptr;
@@ -151,11 +157,12 @@ static enum websocket_callback_return private_decompress(struct websocket *s, ui
 		if (strm->avail_out == 0) {
 			strm->avail_out += size_out;
 			size_out *= 2;
-			*free_ptr = realloc(*free_ptr, size_out);
-			if (*free_ptr == NULL) {
+			uint8_t *bigger = realloc(*free_ptr, size_out);
+			if (bigger == NULL) {
 				log_err("inflate out error: realloc");
-				return WS_ERROR;
+				goto error;
 			}
+			*free_ptr = bigger;
 			out = *free_ptr;
 			strm->next_out = out + size_out / 2;
 		}
@@ -167,17 +174,26 @@ static enum websocket_callback_return private_decompress(struct websocket *s, ui
 		if (ret < Z_OK && ret != Z_BUF_ERROR) {
 			log_err("inflate error:");
 			print_converted_ret(ret);
-			inflateEnd(strm);
-			return WS_ERROR;
+			goto error;
 		}
 	}while(strm->avail_out == 0);
-	free(in);
 	if (strm->avail_in != 0) {
-		log_err("Shit happens! Not all data is decompressed");
-		return WS_ERROR;
+		log_err("Not all data is decompressed");
+		goto error;
 	}
+	free(in);
+	strm->next_in = Z_NULL;
 	*have = size_out - strm->avail_out;
 	return WS_OK;
+
+error:
+	/* the caller only releases the output of a successful call */
+	free(in);
+	free(*free_ptr);
+	*free_ptr = NULL;
+	strm->avail_in = 0;
+	strm->next_in = Z_NULL;
+	return WS_ERROR;
 }
 
 enum websocket_callback_return text_received_comp(bool is_compressed, struct websocket *s, char *msg, size_t length,
@@ -213,11 +229,18 @@ enum websocket_callback_return text_frame_received_comp(bool is_compressed, stru
 		size_t have = 0;
 		uint8_t *free_ptr = NULL;
 		uint8_t *in_ptr = strm->next_in;
+		if (unlikely(in_ptr == NULL)) {
+			/* a fragmented message without a single payload byte is no deflate stream */
+			return WS_ERROR;
+		}
 		size_t sumLen = read_int_from_array(strm->next_in) - strm->avail_in - 4;
 		memmove(strm->next_in, strm->next_in + 4, sumLen);
 
 		ret = private_decompress(s, strm->next_in, sumLen, &free_ptr, &have);
-		if (ret == WS_ERROR) return ret;
+		if (ret == WS_ERROR) {
+			free(in_ptr);
+			return ret;
+		}
 		ret = text_frame_received(s,(char *) free_ptr, have, is_last_frame);
 		free(in_ptr);
 		free(free_ptr);
@@ -260,10 +283,16 @@ enum websocket_callback_return binary_frame_received_comp(bool is_compressed, st
 		size_t have = 0;
 		uint8_t *free_ptr = NULL;
 		uint8_t *in_ptr = strm->next_in;
+		if (unlikely(in_ptr == NULL)) {
+			return WS_ERROR;
+		}
 		size_t sumLen = read_int_from_array(strm->next_in) - strm->avail_in - 4;
 		memmove(strm->next_in, strm->next_in + 4, sumLen);
 		ret = private_decompress(s, strm->next_in, sumLen, &free_ptr, &have);
-		if (ret == WS_ERROR) return ret;
+		if (ret == WS_ERROR) {
+			free(in_ptr);
+			return ret;
+		}
 		ret = binary_frame_received(s, free_ptr, have, is_last_frame);
 		free(in_ptr);
 		free(free_ptr);
@@ -291,10 +320,15 @@ int websocket_compress(const struct websocket *s, uint8_t *dest, uint8_t *src, s
 	int ret;
 	z_stream *strm = *(s->extension_compression.strm_comp);
 	unsigned int have;
-	static uint8_t empty_message;
 
 	if (length == 0) {
-		src = &empty_message;
+		/*
+		 * deflate() makes no progress without input right after a
+		 * flush. RFC 7692, 7.2.3.6: the payload of an empty message is
+		 * a single zero byte.
+		 */
+		dest[0] = 0x00;
+		return 1;
 	}
 
 	strm->avail_in = length;
